@@ -62,9 +62,10 @@ def rescan_shipped(ctx):
         b = stacks.build(inner, [ctx.rng.choice(stacks.LAYERS) for _ in range(h)], ctx.rng.choice(stacks.NEUTRAL_PRE), ctx.rng.choice(stacks.NEUTRAL_SUF))
         if b is not None and len(b[0]) < 4000:
             inputs.append(b[0])
+    inputs += [corpus_gen.xor_document(ctx.rng) for _ in range(ctx.budget(40, 600))]      # several statements, xor keys literal / by variable / absent at different depths
     rest = inputs[pinned:]
     ctx.rng.shuffle(rest)
-    inputs = inputs[:pinned] + rest[: ctx.budget(60, 2000)]
+    inputs = inputs[:pinned] + rest[: ctx.budget(90, 2500)]
     for data in inputs:
         depth = ctx.rng.choice([10, 10, 3, 2])
         del reg.calls[:]
